@@ -119,10 +119,15 @@ def init_security(config: ConfigParser) -> None:
 
     if gid is not None:
         os.setregid(gid, gid)
+        if (os.getgid(), os.getegid()) != (gid, gid):
+            # e.g. an id of -1, which setregid() takes as "leave unchanged"
+            raise OSError(f"Switching to group {gid} had no effect")
         logger.log(f"Switched to group {gid}")
 
     if uid is not None:
         os.setreuid(uid, uid)
+        if (os.getuid(), os.geteuid()) != (uid, uid):
+            raise OSError(f"Switching to uid {uid} had no effect")
         logger.log(f"Switched to uid {uid}")
 
 
